@@ -38,8 +38,8 @@ Print Assumptions C10_verify_bound.
 (** sector roots: success ⇒ the returned roots are the contract's roots for the requested range
     and the revision keeps root, filesize and capacity. *)
 Theorem C10_roots_bound :
-  ∀ c p auth offset length r res roots rs,
-    client_roots c p auth offset length r = Ok (res, roots) → v_root (c_view c) = CR rs →
+  ∀ t c sp offset length r res roots rs,
+    client_roots t c sp offset length r = Ok (res, roots) → v_root (c_view c) = CR rs →
     roots = slice rs offset length
     ∧ v_root (rr_view res) = CR rs ∧ v_filesize (rr_view res) = v_filesize (c_view c)
     ∧ v_capacity (rr_view res) = v_capacity (c_view c).
@@ -49,8 +49,8 @@ Print Assumptions C10_roots_bound.
 (** append: success ⇒ the new Merkle root is the old root list with exactly the returned
     sectors appended; those are the requested sectors the host marked accepted. *)
 Theorem C10_append_bound :
-  ∀ c p roots r1 r3 res secs rs,
-    client_append c p roots r1 r3 = Ok (res, secs) → v_root (c_view c) = CR rs →
+  ∀ t c p roots r1 r3 res secs rs,
+    client_append t c p roots r1 r3 = Ok (res, secs) → v_root (c_view c) = CR rs →
     v_root (rr_view res) = CR (rs ++ secs)
     ∧ (∃ accepted, length accepted = length roots ∧ secs = pick roots accepted)
     ∧ len rs = num_sectors_up c
@@ -63,8 +63,8 @@ Print Assumptions C10_append_bound.
     indices (sorted descending, duplicates removed, all in range) swap-removed; the
     swap-remove list model and core's swap-and-trim agree on such lists. *)
 Theorem C10_free_bound :
-  ∀ c p idxs r1 r3 res rs,
-    client_free c p idxs r1 r3 = Ok res → v_root (c_view c) = CR rs →
+  ∀ t c p idxs r1 r3 res rs,
+    client_free t c p idxs r1 r3 = Ok res → v_root (c_view c) = CR rs →
     let norm := normalize idxs in
     v_root (rr_view res) = CR (swap_remove_all rs norm)
     ∧ swap_remove_all rs norm = free_apply rs norm
@@ -75,24 +75,25 @@ Theorem C10_free_bound :
 Proof. exact free_bound. Qed.
 Print Assumptions C10_free_bound.
 
-(** every revision returned by a revising RPC carries [Sig hk] over exactly that revision
+(** every revision returned by a revising RPC carries [Sig hk] — [hk = c_hk c], the host key of
+    the *contract*, whatever the authenticated key [t] of the transport peer is — over exactly that revision
     (and the renter's own signature over it) and charges exactly the locally computed
     price-table cost and collateral. For replenish the zero-cost branch returns the
     caller's revision unchanged, so its signature is the caller's. *)
 Theorem C10_revision_signed_and_priced :
-  ∀ c p,
-  (∀ auth offset length r res roots, client_roots c p auth offset length r = Ok (res, roots) →
-     signed_by_both c res ∧ charged c res (p_egress p * round4k (32 * length)) 0)
-  ∧ (∀ roots r1 r3 res secs, client_append c p roots r1 r3 = Ok (res, secs) →
+  ∀ t c p,
+  (∀ sp offset length r res roots, client_roots t c sp offset length r = Ok (res, roots) →
+     signed_by_both c res ∧ charged c res (p_egress (sp_prices sp) * round4k (32 * length)) 0)
+  ∧ (∀ roots r1 r3 res secs, client_append t c p roots r1 r3 = Ok (res, secs) →
      let g := append_growth c (len secs) in let d := append_duration c p in
      signed_by_both c res
      ∧ charged c res (p_storage p * sector_size * g * d + p_ingress p * round4k (32 * g))
                      (p_collateral p * sector_size * g * d))
-  ∧ (∀ idxs r1 r3 res, client_free c p idxs r1 r3 = Ok res →
+  ∧ (∀ idxs r1 r3 res, client_free t c p idxs r1 r3 = Ok res →
      signed_by_both c res ∧ charged c res (p_free p * len (normalize idxs)) 0)
-  ∧ (∀ deposits r res bal, client_fund c deposits r = Ok (res, bal) →
+  ∧ (∀ deposits r res bal, client_fund t c deposits r = Ok (res, bal) →
      signed_by_both c res ∧ charged c res (sum_N (deposits.*2)) 0)
-  ∧ (∀ accounts target r1 r3 res deps, client_replenish c accounts target r1 r3 = Ok (res, deps) →
+  ∧ (∀ accounts target r1 r3 res deps, client_replenish t c accounts target r1 r3 = Ok (res, deps) →
      contract_signed c →
      signed_by_both c res
      ∧ (charged c res (sum_N (deps.*2)) 0
@@ -103,8 +104,8 @@ Print Assumptions C10_revision_signed_and_priced.
 (** replenish: every deposit ≤ target, one deposit per account, and the charge is the sum
     of the deposits, at most target × number of accounts. *)
 Theorem C10_replenish_cost_bound :
-  ∀ c accounts target r1 r3 res deps,
-    client_replenish c accounts target r1 r3 = Ok (res, deps) →
+  ∀ t c accounts target r1 r3 res deps,
+    client_replenish t c accounts target r1 r3 = Ok (res, deps) →
     Forall (λ d, d.2 ≤ target) deps
     ∧ len deps = len accounts
     ∧ sum_N (deps.*2) ≤ target * len accounts
@@ -120,15 +121,15 @@ Theorem C10_else_error :
   (∀ p r, ¬ read_ok p r → client_read p r = Err)
   ∧ (∀ p r, ¬ write_ok p r → client_write p r = Err)
   ∧ (∀ p r, ¬ verify_ok p r → client_verify p r = Err)
-  ∧ (∀ c p auth offset length r, ¬ (∃ v' u rr, roots_ok c p auth offset length r v' u rr) →
-       client_roots c p auth offset length r = Err)
-  ∧ (∀ c p roots r1 r3, ¬ (∃ v' u ar hs, append_ok c p roots r1 r3 v' u ar hs) →
-       client_append c p roots r1 r3 = Err)
-  ∧ (∀ c p idxs r1 r3, ¬ (∃ v' u fr hs, free_ok c p idxs r1 r3 v' u fr hs) →
-       client_free c p idxs r1 r3 = Err)
-  ∧ (∀ c deposits r, ¬ (∃ v' u fr, fund_ok c deposits r v' u fr) → client_fund c deposits r = Err)
-  ∧ (∀ c accounts target r1 r3, ¬ (∃ deps, replenish_ok c accounts target r1 r3 deps) →
-       client_replenish c accounts target r1 r3 = Err)
+  ∧ (∀ t c sp offset length r, ¬ (∃ v' u rr, roots_ok c sp offset length r v' u rr) →
+       client_roots t c sp offset length r = Err)
+  ∧ (∀ t c p roots r1 r3, ¬ (∃ v' u ar hs, append_ok c p roots r1 r3 v' u ar hs) →
+       client_append t c p roots r1 r3 = Err)
+  ∧ (∀ t c p idxs r1 r3, ¬ (∃ v' u fr hs, free_ok c p idxs r1 r3 v' u fr hs) →
+       client_free t c p idxs r1 r3 = Err)
+  ∧ (∀ t c deposits r, ¬ (∃ v' u fr, fund_ok c deposits r v' u fr) → client_fund t c deposits r = Err)
+  ∧ (∀ t c accounts target r1 r3, ¬ (∃ deps, replenish_ok c accounts target r1 r3 deps) →
+       client_replenish t c accounts target r1 r3 = Err)
   ∧ (∀ A (r : option A), r = None → client_pass r = Err).
 Proof. exact else_error. Qed.
 Print Assumptions C10_else_error.
